@@ -1161,6 +1161,24 @@ theorem history_roundtrip (s : St) (ops : List Op) (op : Op) (h : (step (run s o
     | ⟨none, _⟩, hv => simp [valid] at hv
     | ⟨some _, none⟩, hv => simp [valid] at hv
 
+/-- **restapi's libp2p identity: exactly what is accepted** — nothing of the three set, or ID, key and listen
+address all set with the ID belonging to the key -/
+theorem rest_accept_iff (i : Option IdTok) (k : Option KeyTok) (addr : Bool) :
+    (restLoad i k addr).isSome = true ↔
+      (i = none ∧ k = none ∧ addr = false) ∨ ∃ n, i = some (.id n) ∧ k = some (.key n) ∧ addr = true := by
+  cases addr <;> rcases i with _ | _ | a <;> rcases k with _ | _ | _ | b <;> simp [restLoad, valid] <;> exact eq_comm
+
+/-- accepted ⇒ valid or entirely unset; and the saved pair loads back to the same state -/
+theorem rest_roundtrip (i : Option IdTok) (k : Option KeyTok) (addr : Bool) (s : St) (h : restLoad i k addr = some s) :
+    restSave s = (i, k) ∧ restLoad (restSave s).1 (restSave s).2 addr = some s := by
+  have hs : (restLoad i k addr).isSome = true := by simp [h]
+  rcases (rest_accept_iff i k addr).mp hs with ⟨rfl, rfl, rfl⟩ | ⟨n, rfl, rfl, rfl⟩
+  · simp [restLoad] at h; subst h; simp [restSave, restLoad]
+  · simp [restLoad, valid] at h; subst h; simp [restSave, restLoad, valid]
+
+example : restLoad (some (.id 1)) (some (.key 1)) true = some { id := some 1, key := some 1 } := by decide
+example : restLoad (some (.id 1)) (some (.key 2)) true = none := by decide
+
 theorem run_append (s : St) (a b : List Op) :
     run s (a ++ b) = ((run (run s a).1 b).1, (run s a).2 ++ (run (run s a).1 b).2) := by
   induction a generalizing s with
